@@ -16,6 +16,7 @@ from vlib.values import canon, enc
 
 ID = "C13"
 LEVEL = "translation_validation"
+ROUNDING_SENSITIVE = [0.1, 0.2, 0.3, 0.7, 1.0 / 3.0, 1e16, -1e16, 1.0, 1.1e-16, 3.3e15, 2.5e-9, 123456.789]
 DECIDING = ("programs", "argument_vectors_compared", "sources_checked")
 RULE = ("program = (acyclic layered manager of expression tasks over dict/list/attribute and function containers, "
         "non-empty subset of <= 4 leaf references); each generated function is called with 4 argument vectors and "
@@ -37,6 +38,51 @@ def plan(tier, seed):
     return [{"mode": "compiled" if i % 2 == 0 else "pure", "hashseed": i % 8, "managers": 1400} for i in range(32)]
 
 
+def grouping_family(counters, digests, violations):
+    """Directed family: t = a op1 (b op2 c) and t = (a op2 b) op1 c for all operator pairs, called with
+    values on which the grouping of float operations is visible; function vs manager vs plain Python."""
+    import itertools
+    import operator
+    import xdeps
+    OPS = {"+": operator.add, "-": operator.sub, "*": operator.mul, "/": operator.truediv}
+    rng = random.Random("C13-grouping")
+    vecs = [tuple(rng.choice(ROUNDING_SENSITIVE) for _ in range(3)) for _ in range(60)] + [(0.1, 0.2, 0.3), (1e16, 1.0, 1.0), (1e16, -1e16, 1.0)]
+    for (n1, f1), (n2, f2), shape in itertools.product(OPS.items(), OPS.items(), "LR"):
+        def build(a, b, c):
+            return f1(a, f2(b, c)) if shape == "R" else f1(f2(a, b), c)
+        da = {"a": 1.0, "b": 2.0, "c": 4.0, "t": 0.0, "u": 0.0}
+        db = dict(da)
+        ma, mb = xdeps.Manager(), xdeps.Manager()
+        ra, rb = ma.ref(da, "r"), mb.ref(db, "r")
+        for r_ in (ra, rb):
+            r_["t"] = build(r_["a"], r_["b"], r_["c"])
+            r_["u"] = r_["t"] * 0.5 + build(r_["c"], r_["a"], r_["b"])
+        name = "a %s (b %s c)" % (n1, n2) if shape == "R" else "(a %s b) %s c" % (n2, n1)
+        try:
+            fn = ma.gen_fun("setter", a=ra["a"], b=ra["b"], c=ra["c"])
+        except Exception as exc:
+            violations.append({"what": "C13 grouping family %s: gen_fun raised %s: %s" % (name, type(exc).__name__, exc)})
+            continue
+        counters["grouping_programs"] = counters.get("grouping_programs", 0) + 1
+        digests.add(digest(["grouping", name]))
+        for a, b, c in vecs:
+            try:
+                t = build(a, b, c)
+                want = {"t": t, "u": t * 0.5 + build(c, a, b)}
+            except ZeroDivisionError:
+                continue
+            fn(a, b, c)
+            rb["a"], rb["b"], rb["c"] = a, b, c
+            counters["grouping_vectors_compared"] = counters.get("grouping_vectors_compared", 0) + 1
+            got_f = {k: canon(da[k]) for k in ("t", "u")}
+            got_m = {k: canon(db[k]) for k in ("t", "u")}
+            exp = {k: canon(v) for k, v in want.items()}
+            if got_f != got_m or got_f != exp:
+                violations.append({"what": "C13 grouping family %s at (a, b, c) = %r: function %s, manager %s, plain Python %s" % (
+                    name, (a, b, c), got_f, got_m, exp), "source": ma.mk_fun("setter", a=ra["a"], b=ra["b"], c=ra["c"])})
+                break
+
+
 def run_shard(spec):
     import xdeps.refs as R
     import xdeps.tasks as T
@@ -45,6 +91,8 @@ def run_shard(spec):
     counters, digests, samples, violations, known = {}, set(), [], [], []
     W = {"define": 0.6, "leafval": 0.15, "val": 0.08, "iop": 0.1, "unreg": 0.05, "ftask": 0, "knob": 0, "replace": 0.02,
          "unreg_task": 0}
+    if not spec.get("replay"):
+        grouping_family(counters, digests, violations)
     for n in range(spec["managers"] if not spec.get("replay") else 30):
         hg = gen.HistoryGen(rng, layered=True, depth=rng.choice([2, 3, 4]), profile=PROFILE, weights=W)
         ls = lockstep.LockStep(hg.world)
@@ -138,6 +186,9 @@ def run_shard(spec):
                 same = vec == 3 or rng.random() < 0.15
                 for l in args:
                     v = rng.choice(l["choices"]) if "choices" in l else gen.leaf_value(rng, l["kind"])
+                    if vec in (1, 2) and l["kind"] == "float":
+                        # values on which the grouping / order of float operations is visible (rounding, absorption)
+                        v = rng.choice(ROUNDING_SENSITIVE)
                     if same and "choices" not in l and l["kind"] in ("float", "int", "bool"):
                         # a value == to the one stored but of another type (2.0 -> 2, 1 -> True): assigning it through
                         # the manager replaces the stored object, so the generated function must do so too
